@@ -17,7 +17,7 @@ CLAUSES = {
             "wire_content_equals_submitted", "wire_request_decodes"},
     "C05": {"no_duplicate_append", "success_in_log_exactly_once", "sequence_contiguous", "resend_identical",
             "nothing_foreign_appended"},
-    "C16": {"max_messages", "max_message_bytes", "max_request_size", "oversize_rejected_not_sent",
+    "C16": {"max_messages", "max_message_bytes", "max_request_size", "oversize_rejected_not_sent", "within_limits_is_sent",
             "flush_without_more_input"},
     "C18": {"intercept_once", "intercept_unknown_message", "intercept_chain_order", "intercept_missing", "no_panic"},
 }
@@ -800,6 +800,18 @@ def family_limits():
                          {"op": "submit", "id": 5, "part": 0, "size": limit // 2 + d},
                          {"op": "wait_outcomes", "n": 5, "ms": 4000}, {"op": "close"}]
                 out.append(sc("lim-bytes%d%+d-%s" % (limit, d, v), "limits", cfg, steps, pl))
+        if v == "0.11.0.0":
+            # record headers: their bytes belong to the size of a record too (accumulation while a request is in flight)
+            for hd in (1, 3):
+                cfg = dict(version=v, retryMax=1, leaders=[1], nbrokers=1, maxMsgBytes=1000, flushFreqMs=20)
+                pl = {"1": {"delayMs": 80}}
+                steps = [{"op": "submit", "id": i, "part": 0, "size": 200, "hdrs": hd} for i in range(1, 15)]
+                steps += [{"op": "wait_outcomes", "n": 14, "ms": 5000}, {"op": "close"}]
+                out.append(sc("lim-bytes-hdrs%d-%s" % (hd, v), "limits", cfg, steps, pl))
+                cfg = dict(version=v, retryMax=1, leaders=[1], nbrokers=1, flushBytes=1000, flushFreqMs=3000)
+                steps = [{"op": "submit", "id": i, "part": 0, "size": 200, "hdrs": hd} for i in range(1, 8)]
+                steps += [{"op": "must_outcomes_by", "n": 4, "ms": 2000}, {"op": "wait_outcomes", "n": 7, "ms": 6000}, {"op": "close"}]
+                out.append(sc("lim-flushbytes-hdrs%d-%s" % (hd, v), "limits", cfg, steps))
         for trig in (dict(), dict(flushMsgs=1), dict(flushBytes=1), dict(flushFreqMs=40), dict(flushMaxMsgs=5)):
             cfg = dict(version=v, retryMax=1, leaders=[1], nbrokers=1, **trig)
             steps = submits([(1, 0)]) + [{"op": "must_req", "n": 1, "ms": 2500}, {"op": "wait_outcomes", "n": 1, "ms": 2000}, {"op": "close"}]
@@ -809,6 +821,13 @@ def family_limits():
         steps = [{"op": "submit", "id": i, "part": i % 2, "size": 150 + 10 * i} for i in range(1, 13)]
         steps += [{"op": "wait_outcomes", "n": 12, "ms": 5000}, {"op": "close"}]
         out.append(sc("lim-reqsize-%s" % v, "limits", cfg, steps, pl))
+        # MaxRequestSize lowered by the application, four partitions on the broker: what accumulates while a request is in flight
+        # would exceed the request limit although every batch is within MaxMessageBytes - it must be cut into several requests
+        cfg = dict(version=v, retryMax=1, leaders=[1, 1, 1, 1], nbrokers=1, maxReqSize=1500, maxMsgBytes=600, flushFreqMs=30)
+        pl = {"1": {"delayMs": 120}}
+        steps = [{"op": "submit", "id": i, "part": i % 4, "size": 300} for i in range(1, 14)]
+        steps += [{"op": "wait_outcomes", "n": 13, "ms": 6000}, {"op": "close"}]
+        out.append(sc("lim-reqsize4-%s" % v, "limits", cfg, steps, pl))
     return out
 
 
